@@ -74,9 +74,12 @@ func genC07(r *sim.Rng) *c07Case {
 	}
 	c.DelayUS = []int{1, 20, 250, 1000}[r.Intn(4)] // grace = delay*(delay/1000): 1 ms -> 1 s
 	c.JitterUS = []int{0, 0, 50, 300, 1500, 5000}[r.Intn(6)]
-	if r.Intn(12) == 0 {
-		c.Driver, c.OnClose = "generic-standard", 0
-		c.State = r.Pick([]string{"idle", "session-ended", "peer-gone"})
+	if r.Intn(10) == 0 {
+		c.Driver, c.OnClose = r.Pick([]string{"generic-standard", "generic-telnet"}), 0
+		c.State = r.Pick([]string{"idle", "peer-gone", "inflight", "inflight"})
+		if c.Driver == "generic-standard" && r.Intn(3) == 0 {
+			c.State = "session-ended"
+		}
 	}
 	return c
 }
@@ -94,9 +97,12 @@ func runC07(seed uint64, n int, tier string) {
 	}
 	// the built-in crypto/ssh transport against an in-process server: a live session, a session the
 	// server ended while keeping the connection (the device's shell exited), a dropped connection
-	for _, s := range []string{"idle", "session-ended", "peer-gone"} {
+	for _, s := range []string{"idle", "session-ended", "peer-gone", "inflight", "inflight"} {
 		for _, dl := range []int{20, 250} {
 			cases = append(cases, &c07Case{Driver: "generic-standard", State: s, DelayUS: dl})
+			if s != "session-ended" {
+				cases = append(cases, &c07Case{Driver: "generic-telnet", State: s, DelayUS: dl, JitterUS: 300 * (dl % 3)})
+			}
 		}
 	}
 	// forced orders: every pair (reader-side label, closer-side label) in both orders, per driver
@@ -208,7 +214,7 @@ func runC07Case(id string, c *c07Case) {
 	// model's quiescent states, and the record of yield points passed since the scenario's initial
 	// state must be a possible record of a run of the model
 	mdriver, mstate, tstate, second, user := c07ModelScenario(c)
-	if c.Driver == "generic-standard" {
+	if c.Driver == "generic-standard" || c.Driver == "generic-telnet" {
 		// a real transport: the direct oracle only (the protocol model is about the channel and the
 		// drivers over a transport whose Close closes it)
 		emit(cs)
@@ -408,7 +414,7 @@ func c07Child() {
 	if json.Unmarshal([]byte(os.Getenv("VERIF_C07_CHILD")), &c) != nil {
 		return
 	}
-	if c.Driver == "generic-standard" {
+	if c.Driver == "generic-standard" || c.Driver == "generic-telnet" {
 		c07ChildStandard(&c)
 		return
 	}
@@ -670,31 +676,80 @@ func c07ChildStandard(c *c07Case) {
 	o := c07Obs{}
 	g0 := runtime.NumGoroutine()
 	o.Goroutines0 = g0
-	p, err := newC16SSHPeer("none", nil, &idleDev{hello: []byte("router#")})
-	if err != nil {
-		fmt.Println(`{"panicked":"setup failed"}`)
-		return
-	}
 	delay := time.Duration(c.DelayUS) * time.Microsecond
-	d, err := generic.NewDriver("127.0.0.1", options.WithPort(p.Port()), options.WithTransportType("standard"),
-		options.WithAuthNoStrictKey(), options.WithAuthUsername(c16User), options.WithTimeoutSocket(3*time.Second),
-		options.WithReadDelay(delay), options.WithTimeoutOps(2*time.Second))
+	var d *generic.Driver
+	var err error
+	var sp *c16SSHPeer
+	var tp *c16TCPPeer
+	var peerStopped chan struct{}
+	if c.Driver == "generic-telnet" {
+		tp, err = newC16TCPPeer(nil, &idleDev{hello: []byte("router#")})
+		if err != nil {
+			fmt.Println(`{"panicked":"setup failed"}`)
+			return
+		}
+		peerStopped = tp.stopped
+		d, err = generic.NewDriver("127.0.0.1", options.WithPort(tp.Port()), options.WithTransportType("telnet"),
+			options.WithAuthBypass(), options.WithTimeoutSocket(400*time.Millisecond),
+			options.WithReadDelay(delay), options.WithTimeoutOps(2*time.Second))
+	} else {
+		sp, err = newC16SSHPeer("none", nil, &idleDev{hello: []byte("router#")})
+		if err != nil {
+			fmt.Println(`{"panicked":"setup failed"}`)
+			return
+		}
+		peerStopped = sp.stopped
+		d, err = generic.NewDriver("127.0.0.1", options.WithPort(sp.Port()), options.WithTransportType("standard"),
+			options.WithAuthNoStrictKey(), options.WithAuthUsername(c16User), options.WithTimeoutSocket(3*time.Second),
+			options.WithReadDelay(delay), options.WithTimeoutOps(2*time.Second))
+	}
 	if err != nil || d.Open() != nil {
 		fmt.Println(`{"panicked":"setup failed"}`)
 		return
 	}
-	_ = p.ln.Close() // one connection only: the accept loop is over
+	// one connection only: the accept loop is over
+	if sp != nil {
+		_ = sp.ln.Close()
+	} else {
+		_ = tp.ln.Close()
+	}
 	if _, err := d.GetPrompt(); err != nil {
 		fmt.Println(`{"panicked":"setup failed"}`)
 		return
 	}
+	inflight := make(chan string, 1)
 	switch c.State {
 	case "session-ended":
-		p.EndSession()
+		sp.EndSession()
 		time.Sleep(30 * time.Millisecond) // the reader sees the end of the stream
 	case "peer-gone":
-		p.Hangup()
+		if sp != nil {
+			sp.Hangup()
+		} else {
+			tp.Hangup()
+		}
 		time.Sleep(30 * time.Millisecond)
+	case "inflight":
+		// an operation of the caller's is in flight when Close is called: writes until three in a
+		// row are refused (the connection is closed by then)
+		go func() {
+			defer func() {
+				if pn := recover(); pn != nil {
+					inflight <- "panic in the in-flight operation: " + fmt.Sprint(pn)
+				}
+			}()
+			refused := 0
+			dl := time.Now().Add(1500 * time.Millisecond)
+			for refused < 3 && time.Now().Before(dl) {
+				if err := d.Channel.WriteAndReturn([]byte("show clock"), false); err != nil {
+					refused++
+				} else {
+					refused = 0
+				}
+			}
+			inflight <- ""
+		}()
+		time.Sleep(2 * time.Millisecond)
 	}
 	if c.JitterUS > 0 {
 		time.Sleep(time.Duration(c.JitterUS) * time.Microsecond)
@@ -725,9 +780,21 @@ func c07ChildStandard(c *c07Case) {
 	}
 	o.CloseMS = float64(time.Since(t0).Microseconds()) / 1000
 	select {
-	case <-p.stopped:
+	case <-peerStopped:
 		o.Closed = true
 	case <-time.After(time.Second):
+	}
+	if c.State == "inflight" {
+		select {
+		case r := <-inflight:
+			if r != "" && o.Panicked == "" {
+				o.Panicked = r
+			}
+		case <-time.After(2 * time.Second):
+			if o.Panicked == "" {
+				o.Panicked = "the in-flight operation never returned after Close"
+			}
+		}
 	}
 	deadline := time.Now().Add(400 * time.Millisecond)
 	for time.Now().Before(deadline) {
